@@ -626,3 +626,117 @@ func (c *Ctx) evalLikeSet() map[*types.Func]bool {
 	c.memo["evalLike"] = m
 	return m
 }
+
+// LIB.loader-restore — C05 ("the current package is the one in effect before a
+// load"): each standard-library package has a Go loader that switches into the
+// package it defines and must leave the environment in the package it found.
+// Eleven siblings share one idiom — read the current package's name, defer an
+// InPackage back to it — and each must keep both halves.
+func init() {
+	register(&Rule{ID: "LIB.loader-restore", Floor: 10,
+		Doc: "every function of the standard-library packages (lisp/lisplib/…) that switches the current package with a non-deferred (*LEnv).InPackage has, dominating that switch, a `defer env.InPackage(lisp.Symbol(<saved>))` whose <saved> is a local assigned from <env>.Runtime.Package.Name before: the loader returns — and panics — into the package it was called from, not into a fixed one",
+		Run: func(c *Ctx) []Obligation {
+			const rid = "LIB.loader-restore"
+			inPkg := c.LookupMethod("lisp.LEnv.InPackage")
+			pkgFld := c.LookupField("lisp.Runtime.Package")
+			if inPkg == nil || pkgFld == nil {
+				return []Obligation{anchorMissing(rid, "LEnv.InPackage / Runtime.Package")}
+			}
+			var obs []Obligation
+			for _, u := range c.Funcs(func(p string) bool { return hasPrefix(rel(p), "lisp/lisplib") }) {
+				if u.Decl == nil || u.Decl.Body == nil {
+					continue
+				}
+				info := u.Pkg.TypesInfo
+				// non-deferred switches
+				deferred := map[*ast.CallExpr]bool{}
+				ast.Inspect(u.Decl.Body, func(n ast.Node) bool {
+					if ds, ok := n.(*ast.DeferStmt); ok {
+						deferred[ds.Call] = true
+					}
+					return true
+				})
+				var switches []*ast.CallExpr
+				for _, ce := range callsIn(u.Decl.Body, false) {
+					if originOf(Callee(info, ce)) == inPkg && !deferred[ce] {
+						switches = append(switches, ce)
+					}
+				}
+				if len(switches) == 0 {
+					continue
+				}
+				if u.Name() == "lisp/lisplib.LoadLibrary" {
+					// the bootstrap entry point: documented to leave env in the default
+					// user package (that is its contract, not a leak)
+					obs = append(obs, mkOb(c, rid, u, "switch to the default user package", switches[0], Proved, "LoadLibrary's documented postcondition (\"returns env to the default user package\")", false))
+					continue
+				}
+				fc := c.cfgOf(u, nil)
+				// restoring defers
+				var restores []Loc
+				for _, b := range fc.G.Blocks {
+					if !fc.Live(b) {
+						continue
+					}
+					for i, n := range b.Nodes {
+						ds, ok := n.(*ast.DeferStmt)
+						if !ok || originOf(Callee(info, ds.Call)) != inPkg || len(ds.Call.Args) != 1 {
+							continue
+						}
+						// argument: Symbol(<saved>) or <saved>
+						arg := ast.Unparen(ds.Call.Args[0])
+						if ce, ok := arg.(*ast.CallExpr); ok && len(ce.Args) == 1 {
+							arg = ast.Unparen(ce.Args[0])
+						}
+						saved := identObj(info, arg)
+						if saved == nil {
+							continue
+						}
+						okSaved := false
+						ast.Inspect(u.Decl.Body, func(m ast.Node) bool {
+							as, ok := m.(*ast.AssignStmt)
+							if !ok || as.Pos() > ds.Pos() || len(as.Lhs) != len(as.Rhs) {
+								return true
+							}
+							for k, l := range as.Lhs {
+								if identObj(info, l) != saved {
+									continue
+								}
+								// <x>.Runtime.Package.Name  or  <x>.Runtime.Package
+								r := ast.Unparen(as.Rhs[k])
+								if se, ok := r.(*ast.SelectorExpr); ok && se.Sel.Name == "Name" {
+									r = ast.Unparen(se.X)
+								}
+								if FieldOfSelector(info, r) == pkgFld {
+									okSaved = true
+								}
+							}
+							return true
+						})
+						if okSaved {
+							restores = append(restores, Loc{b, i})
+						}
+					}
+				}
+				ord := &ordinal{}
+				for _, sw := range switches {
+					construct := ord.next("switch " + types.ExprString(sw))
+					loc, ok := fc.Locate(sw)
+					dom := false
+					if ok {
+						for _, r := range restores {
+							if fc.Dominates(r, loc) {
+								dom = true
+							}
+						}
+					}
+					if dom {
+						obs = append(obs, mkOb(c, rid, u, construct, sw, Proved, "after a deferred InPackage back to the package read from Runtime.Package before", true))
+					} else {
+						obs = append(obs, mkOb(c, rid, u, construct, sw, Violated, "the loader switches the current package with no deferred switch back to the package that was current when it was called (a restore to a fixed name such as the default user package is not one): loaded from any other package, everything defined afterwards lands in the wrong package", true))
+					}
+				}
+			}
+			return obs
+		}})
+}
